@@ -2234,12 +2234,15 @@ class FilePool:
         try:
             yield f
         finally:
-            self._out.remove(f)
-            self._files.append(f)
-            if not self._out:
-                with self._cond:
-                    if self.writers and not self._out:
-                        self._cond.notify_all()
+            # Hand the file back under the condition's lock: a writer
+            # (flush() after an abort, pack) that runs between the two list
+            # operations would miss it and leave a stale read buffer, or a
+            # handle on the old file, in the pool.
+            with self._cond:
+                self._out.remove(f)
+                self._files.append(f)
+                if self.writers and not self._out:
+                    self._cond.notify_all()
 
     def empty(self):
         while self._files:
